@@ -674,6 +674,7 @@ func (c *Ctx) buildPreamble() string {
 			}
 			m := pow2(w).String()
 			b.WriteString(fmt.Sprintf("(define-fun wrap1_%s%d ((x Int)) Int (ite (> x %s) (- x %s) (ite (< x %s) (+ x %s) x)))\n", sg, w, intLit(hi), m, intLit(lo), m))
+			b.WriteString(fmt.Sprintf("(define-fun wrapm_%s%d ((x Int)) Int (ite (and (<= %s x) (<= x %s)) x %s))\n", sg, w, intLit(lo), intLit(hi), wrapLIA("x", w, signed)))
 		}
 	}
 	{
